@@ -41,9 +41,19 @@ pub struct Case {
 
 pub struct C16;
 
+thread_local! {
+    /// the observing node's id while a case runs (address variant 4 is the observer's own address)
+    static OBSERVER: std::cell::Cell<u8> = const { std::cell::Cell::new(1) };
+}
+
 fn addr(id: u8, variant: u8) -> SocketAddr {
     // variants 0 and 1 are addresses of the id's own; 2 and 3 come from a pool every id may use (a node that
-    // restarts under a new id on the old address, two nodes swapping addresses)
+    // restarts under a new id on the old address, two nodes swapping addresses); 4 is the address the observing node
+    // itself advertises (an earlier incarnation of it that the membership layer still reports live under another id;
+    // after the seeded change `C16r`)
+    if variant == 4 {
+        return ([10, 1, 0, OBSERVER.with(|c| c.get())], 7000).into();
+    }
     if variant >= 2 {
         return ([10, 1, 9, variant], 7000).into();
     }
@@ -87,16 +97,16 @@ impl Prop for C16 {
                 let id = if id == me { 7 } else { id };
                 match src.weighted(&[4, 3, 1]) {
                     0 => {
-                        let v = *src.pick(&[0u8, 0, 0, 0, 1, 2, 2, 3]);
+                        let v = *src.pick(&[0u8, 0, 0, 0, 1, 2, 2, 3, 4]);
                         cur.entry(id).or_insert(v);
                     },
                     1 => {
                         cur.remove(&id);
                     },
                     _ => {
-                        let to = *src.pick(&[0u8, 1, 2, 2, 3]);
+                        let to = *src.pick(&[0u8, 1, 2, 2, 3, 4]);
                         if let Some(v) = cur.get_mut(&id) {
-                            *v = if *v == to { (to + 1) % 4 } else { to };
+                            *v = if *v == to { (to + 1) % 5 } else { to };
                         } else {
                             cur.insert(id, to);
                         }
@@ -136,7 +146,7 @@ impl Prop for C16 {
 
     fn rule(&self) -> &'static str {
         "one real DatacakeNode (id 1, or 0, 255 or 4 in half of the cases); 1-10 membership snapshots over ids 2-6 (7 instead of the node's own) (joins, leaves, rejoins, address \
-         changes, addresses of an id's own or from a pool of two that several ids may hold at once or one after the other) published where chitchat would publish them (hook H-members), some back to back so the node's own \
+         changes, addresses of an id's own, from a pool of two that several ids may hold at once or one after the other, or the observing node's own address) published where chitchat would publish them (hook H-members), some back to back so the node's own \
          publisher skips one, some repeating the previous one, some published while 99-250 callers keep the node's selector busy (its request queue holds 100)          and followed at once by the next snapshot from a task of its own (it lands while the node is still working on the previous one); a component subscribes via membership_changes() at a generated moment and reads after a \
          generated subset of the snapshots, always reading once more at the end; it applies each change like the \
          replication services do (remove `left` ids, then insert `joined`); oracle 1: each non-empty delta it is handed equals \
@@ -276,6 +286,7 @@ impl<'a> Subscriber<'a> {
 
 async fn run(case: &Case) -> Outcome {
     let me = case.me;
+    OBSERVER.with(|c| c.set(me));
     let a = addr(me, 0);
     let cfg = ConnectionConfig::new(a, a, Vec::<String>::new());
     let node = std::sync::Arc::new(DatacakeNodeBuilder::<DCAwareSelector>::new(me, cfg).connect().await.expect("connect"));
@@ -445,6 +456,9 @@ async fn run(case: &Case) -> Outcome {
     }
     if case.me != 1 {
         labels.push(match case.me { 0 => "own_id_0", 255 => "own_id_255", _ => "own_id_between_the_others" });
+    }
+    if case.snapshots.iter().any(|s| s.values().any(|v| *v == 4)) {
+        labels.push("a_member_on_the_observers_own_address");
     }
     Ok(Pass { nontrivial: leave_or_change, labels })
 }
